@@ -150,6 +150,25 @@ def cumulativeW (dims : Nat) (h : List (Key × α)) : List (Key × α) :=
   else h.map fun kv => (kv.1, ((h.filter fun kv2 => tupleCompare kv2.1 kv.1).map (·.2)).foldr (· + ·) 0)
 end weights
 
+/-! ### fractional bins in exact arithmetic (`Rat`): sum(), normalize(), accumulate on top of a normalised histogram -/
+
+abbrev HistQ := List (Key × Rat)
+
+def ofCounts (h : Hist) : HistQ := h.map fun kv => (kv.1, (kv.2 : Rat))
+/-- `histogram::sum()` -/
+def sumQ (h : HistQ) : Rat := (h.map (·.2)).foldr (· + ·) 0
+/-- `histogram::normalize()`: every bin divided by the sum of all bins -/
+def normalizeQ (h : HistQ) : HistQ := h.map fun kv => (kv.1, kv.2 / sumQ h)
+def scaleQ (q : Rat) (h : HistQ) : HistQ := h.map fun kv => (kv.1, kv.2 * q)
+/-- `operator[](k) += n` on fractional bins -/
+def addQ (h : HistQ) (k : Key) (n : Rat) : HistQ :=
+  match h with
+  | [] => [(k, n)]
+  | (k', c) :: rest => if k' = k then (k', c + n) :: rest else (k', c) :: addQ rest k n
+/-- accumulate-fill on top of fractional bins -/
+def fillQ (a : FillArgs) (h : HistQ) (pixels : List (List Int × Bool)) : HistQ :=
+  pixels.foldl (fun h pm => if counted a pm.2 pm.1 then addQ h (keyOf a.c a.bw a.sel pm.1) 1 else h) h
+
 /-! ### sub_histogram -/
 
 def project (axes : List Nat) (k : Key) : Key := axes.map (fun i => k.getD i 0)
